@@ -176,6 +176,38 @@ theorem C01_guard_no_panic (c : Chan) (n : Nat) :
   refine ⟨?_, ?_, ?_⟩
   all_goals (repeat' split) <;> simp
 
+/-! ### Tie to the source: generated constants (translate/x_enforcement.py → Gen/Enforcement.lean)
+
+`INITIAL_COMMITMENT_NUMBER`, the protocol-version thresholds and `1 << 48` are *used* by the model from the
+generated file.  The guard offsets are literals in the model; the theorems below state each model guard in
+terms of the offset extracted from the Rust expression (whose shape the translator pins), so a changed
+offset in the source breaks this obligation. -/
+
+/-- the secret-release guard of the model is the extracted `checked_add(releaseOffset) … n > next` -/
+theorem C01_gen_release_guard (c : Chan) (n : Nat) (hs : c.slot = .ready) :
+    ((getSecret c n).secret = some n ↔
+      n + Gen.Enforcement.releaseOffset ≤ U64.MAX ∧ n + Gen.Enforcement.releaseOffset ≤ c.next) ∧
+    ((getSecretOrNone c n).secret = some n ↔
+      n + Gen.Enforcement.releaseOffset ≤ U64.MAX ∧ n + Gen.Enforcement.releaseOffset ≤ c.next) := by
+  unfold getSecret getSecretOrNone Gen.Enforcement.releaseOffset
+  simp only [hs]
+  constructor <;> (repeat' split) <;> simp <;> omega
+
+/-- the point guard of the model is the extracted `commitment_number > next + pointSlack` -/
+theorem C01_gen_point_guard (c : Chan) (n : Nat) (hs : c.slot = .ready) :
+    getPoint c n = .ok ↔ n ≤ c.next + Gen.Enforcement.pointSlack := by
+  unfold getPoint Gen.Enforcement.pointSlack
+  simp only [hs]
+  split <;> simp <;> omega
+
+/-- remaining offsets and widths the models use as literals -/
+theorem C01_gen_ties :
+    Gen.Enforcement.getPointSecretLag = 2 ∧ Gen.Enforcement.holderRevokedOffset = 2 ∧
+    Gen.Enforcement.cpSignAhead = 1 ∧ Gen.Enforcement.cpDeltaFirst = 1 ∧ Gen.Enforcement.cpDelta = 2 ∧
+    Gen.Enforcement.cpRevokeLow = 2 ∧ Gen.Enforcement.cpRevokeHigh = 1 ∧
+    Gen.Enforcement.secretIndexBits = 48 ∧ Secrets.N48 = 2 ^ Gen.Enforcement.secretIndexBits ∧
+    INITIAL + 1 = Secrets.N48 ∧ PROTOCOL_VERSION_REVOKE < PROTOCOL_VERSION_NO_SECRET := by decide
+
 /-! ### Non-vacuity: concrete histories -/
 
 /-- validate 0, activate, validate 1, revoke 1 discloses secret 0; the history justifies it -/
